@@ -3552,44 +3552,89 @@ fn judge_station_c19(rep: &mut Report, ps: &mut Parsers, out: &Outcome, sti: usi
                     None
                 };
                 // does this PeerDown say how session `x` ended?  Err(clause, what, detail); Ok(false) = not observed
-                let mut against = |x: &Session| -> Result<bool, (&'static str, &'static str, String)> {
-                    let Some(cl) = &x.close else { return Ok(false) };
-                    match (cl.kind, &cl.sent, &cl.received) {
-                        (CloseKind::Notify, Some(n), _) => {
-                            if *reason != 3 {
-                                return Err(("reason/remote-notification", "the peer ended the session with a NOTIFICATION; the PeerDown does not say so (reason 3 + the NOTIFICATION)", format!("reason {} data {}; peer sent {}", reason, hex(data), notif_str(n))));
+                let mut against =
+                    |x: &Session| -> Result<bool, (&'static str, &'static str, String)> {
+                        let Some(cl) = &x.close else { return Ok(false) };
+                        match (cl.kind, &cl.sent, &cl.received) {
+                            (CloseKind::Notify, Some(n), _) => {
+                                if *reason != 3 {
+                                    return Err((
+                                        "reason/remote-notification",
+                                        "the peer ended the session with a NOTIFICATION; the PeerDown does not say so (reason 3 + the NOTIFICATION)",
+                                        format!(
+                                            "reason {} data {}; peer sent {}",
+                                            reason,
+                                            hex(data),
+                                            notif_str(n)
+                                        ),
+                                    ));
+                                }
+                                if !parsed.as_ref().is_some_and(|g| notif_eq(g, n)) {
+                                    return Err((
+                                        "notification-differs/remote",
+                                        "NOTIFICATION in the PeerDown is not the one the peer sent",
+                                        format!(
+                                            "PeerDown carries {:?}; peer sent {}",
+                                            parsed.as_ref().map(notif_str),
+                                            notif_str(n)
+                                        ),
+                                    ));
+                                }
+                                Ok(true)
                             }
-                            if !parsed.as_ref().is_some_and(|g| notif_eq(g, n)) {
-                                return Err(("notification-differs/remote", "NOTIFICATION in the PeerDown is not the one the peer sent", format!("PeerDown carries {:?}; peer sent {}", parsed.as_ref().map(notif_str), notif_str(n))));
+                            (CloseKind::Provoke, _, Some(raw)) => {
+                                let wire = match ps.parse(raw, false, false) {
+                                    Ok(ParsedMessage::Notification(n)) => n,
+                                    _ => return Ok(false),
+                                };
+                                if *reason != 1 {
+                                    return Err((
+                                        "reason/local-notification",
+                                        "the daemon ended the session with a NOTIFICATION; the PeerDown does not say so (reason 1 + the NOTIFICATION)",
+                                        format!(
+                                            "reason {} data {}; daemon sent {}",
+                                            reason,
+                                            hex(data),
+                                            notif_str(&wire)
+                                        ),
+                                    ));
+                                }
+                                if !parsed.as_ref().is_some_and(|g| notif_eq(g, &wire)) {
+                                    return Err((
+                                        "notification-differs/local",
+                                        "NOTIFICATION in the PeerDown is not the one the daemon sent",
+                                        format!(
+                                            "PeerDown carries {:?}; daemon sent {}",
+                                            parsed.as_ref().map(notif_str),
+                                            notif_str(&wire)
+                                        ),
+                                    ));
+                                }
+                                Ok(true)
                             }
-                            Ok(true)
+                            (CloseKind::Drop, _, _) => {
+                                if *reason == 1 || *reason == 3 {
+                                    return Err((
+                                        "reason/no-notification",
+                                        "the session ended without any NOTIFICATION but the PeerDown carries one",
+                                        format!("reason {} data {}", reason, hex(data)),
+                                    ));
+                                }
+                                Ok(true)
+                            }
+                            _ => Ok(false),
                         }
-                        (CloseKind::Provoke, _, Some(raw)) => {
-                            let wire = match ps.parse(raw, false, false) {
-                                Ok(ParsedMessage::Notification(n)) => n,
-                                _ => return Ok(false),
-                            };
-                            if *reason != 1 {
-                                return Err(("reason/local-notification", "the daemon ended the session with a NOTIFICATION; the PeerDown does not say so (reason 1 + the NOTIFICATION)", format!("reason {} data {}; daemon sent {}", reason, hex(data), notif_str(&wire))));
-                            }
-                            if !parsed.as_ref().is_some_and(|g| notif_eq(g, &wire)) {
-                                return Err(("notification-differs/local", "NOTIFICATION in the PeerDown is not the one the daemon sent", format!("PeerDown carries {:?}; daemon sent {}", parsed.as_ref().map(notif_str), notif_str(&wire))));
-                            }
-                            Ok(true)
-                        }
-                        (CloseKind::Drop, _, _) => {
-                            if *reason == 1 || *reason == 3 {
-                                return Err(("reason/no-notification", "the session ended without any NOTIFICATION but the PeerDown carries one", format!("reason {} data {}", reason, hex(data))));
-                            }
-                            Ok(true)
-                        }
-                        _ => Ok(false),
-                    }
-                };
+                    };
                 let mut fail: Option<Finding> = None;
                 let mut stale = false;
                 if let Err((c, d)) = check_hdr(hdr, &e) {
-                    fail = Some(finding("peer-down", &c, "per-peer header of the PeerDown does not describe the peer", d, &[]));
+                    fail = Some(finding(
+                        "peer-down",
+                        &c,
+                        "per-peer header of the PeerDown does not describe the peer",
+                        d,
+                        &[],
+                    ));
                 } else if s.close.is_none() {
                     rep.count("unjudged:e2e-peer-down-of-session-still-open");
                 } else {
@@ -3610,7 +3655,12 @@ fn judge_station_c19(rep: &mut Report, ps: &mut Parsers, out: &Outcome, sti: usi
                                 .filter(|(_, x)| x.spk == s.spk && x.up_step < s.up_step)
                                 .max_by_key(|(_, x)| x.up_step);
                             match prev {
-                                Some((pi, px)) if !st.quiescent && !downs_matched.contains(&pi) && px.down_step.is_some_and(|d| d >= st.connect_step) && matches!(against(px), Ok(true)) => {
+                                Some((pi, px))
+                                    if !st.quiescent
+                                        && !downs_matched.contains(&pi)
+                                        && px.down_step.is_some_and(|d| d >= st.connect_step)
+                                        && matches!(against(px), Ok(true)) =>
+                                {
                                     downs_matched.insert(pi);
                                     stale = true;
                                     rep.count("unjudged:e2e-peer-down-of-previous-session-after-peer-up-of-the-next");
@@ -3626,7 +3676,14 @@ fn judge_station_c19(rep: &mut Report, ps: &mut Parsers, out: &Outcome, sti: usi
                         f,
                         ctx(vec![
                             ("peer", Json::s(cfg.addr.to_string())),
-                            ("close", Json::s(format!("{:?} (session with source port {}, paired by the ports of the PeerUp the station holds)", s.close.as_ref().map(|c| c.kind), s.my_port))),
+                            (
+                                "close",
+                                Json::s(format!(
+                                    "{:?} (session with source port {}, paired by the ports of the PeerUp the station holds)",
+                                    s.close.as_ref().map(|c| c.kind),
+                                    s.my_port
+                                )),
+                            ),
                         ]),
                         hseed,
                     ),
@@ -4434,7 +4491,9 @@ fn judge_station_rib_c18(rep: &mut Report, out: &Outcome, sti: usize, hseed: u64
             StMsg::PeerUp { hdr, rport, .. } if hdr.ptype == 0 => {
                 // a PeerUp of another session (other source port) of a peer whose PeerUp is still open:
                 // the PeerDown of the earlier session was never delivered to this station
-                if open.contains(&hdr.addr()) && open_port.get(&hdr.addr()).is_some_and(|p| p != rport) {
+                if open.contains(&hdr.addr())
+                    && open_port.get(&hdr.addr()).is_some_and(|p| p != rport)
+                {
                     lost_down.insert(hdr.addr());
                 }
                 open_port.insert(hdr.addr(), *rport);
@@ -4589,7 +4648,10 @@ fn judge_station_rib_c18(rep: &mut Report, out: &Outcome, sti: usize, hseed: u64
                     .all(|k| orph.is_some_and(|o| o.contains(*k)));
             let sig = if missing.is_empty() && all_orphan {
                 "C18/bmp-station/routes-of-departed-peer"
-            } else if missing.is_empty() && !leftover.is_empty() && leftover.iter().all(|k| ended_keys.contains(*k)) {
+            } else if missing.is_empty()
+                && !leftover.is_empty()
+                && leftover.iter().all(|k| ended_keys.contains(*k))
+            {
                 "C18/bmp-station/peer-down-never-delivered"
             } else {
                 "C18/bmp-station/adj-rib-in-differs"
@@ -5047,8 +5109,15 @@ fn run() {
                             .iter()
                             .enumerate()
                             .filter_map(|(i, (_, m))| match m {
-                                StMsg::PeerUp { hdr, rport, .. } => Some(format!("#{} up {} t{} rport {}", i, hdr.addr(), hdr.ptype, rport)),
-                                StMsg::PeerDown { hdr, reason, .. } => Some(format!("#{} down {} r{}", i, hdr.addr(), reason)),
+                                StMsg::PeerUp { hdr, rport, .. } => Some(format!(
+                                    "#{} up {} t{} rport {}",
+                                    i,
+                                    hdr.addr(),
+                                    hdr.ptype,
+                                    rport
+                                )),
+                                StMsg::PeerDown { hdr, reason, .. } =>
+                                    Some(format!("#{} down {} r{}", i, hdr.addr(), reason)),
                                 _ => None,
                             })
                             .collect::<Vec<_>>()
